@@ -82,6 +82,7 @@ var specs = map[string]propSpec{
 		Units: []unitSpec{
 			{Name: "rapid-regex", Test: "TestC16Regex", Rapid: true, QuickChecks: 60000, ThoroughChecks: 800000, QuickShards: 2, ThoroughShards: 8},
 			{Name: "rapid-cache-histories", Test: "TestC16Cache", Rapid: true, QuickChecks: 40000, ThoroughChecks: 500000, QuickShards: 2, ThoroughShards: 4},
+			{Name: "rapid-cache-scheduled", Test: "TestC16Scheduled", Rapid: true, QuickChecks: 3000, ThoroughChecks: 40000, QuickShards: 2, ThoroughShards: 4},
 			{Name: "rapid-cache-concurrent", Test: "TestC16Concurrent", Rapid: true, Race: true, QuickChecks: 400, ThoroughChecks: 8000, QuickShards: 2, ThoroughShards: 4},
 		},
 		Assumptions: []string{"Go's regexp package is the trusted reference for matches()/replace()", "the cache's entry count, capacity and reset counter are observed through verif-tagged accessors that take the cache's read lock", "concurrent schedules are sampled under the race detector, not enumerated", "which entries survive a reset is not asserted (the property only bounds the size)"},
